@@ -500,7 +500,7 @@ func genC16Layout(t *rapid.T, l string) string {
 
 func genC16Fault(t *rapid.T) *c16Fault {
 	sn := pick(t, "snip", c16Snips)
-	where := pick(t, "where", []string{"root", "root", "inc", "base", "baseblock", "mac", "lazyinc"})
+	where := pick(t, "where", []string{"root", "root", "inc", "base", "baseblock", "childblock", "mac", "lazyinc"})
 	pre := genC16Layout(t, "pre")
 	post := ""
 	if !sn.atEOF && !sn.lexer {
@@ -543,6 +543,17 @@ func genC16Fault(t *rapid.T) *c16Fault {
 		files["/base.tpl"] = "{% block b %}" + body + "{% endblock %}tail"
 		cs.Offset += len("{% block b %}")
 		files["/root.tpl"] = `{% extends "/base.tpl" %}{% block other %}child{% endblock %}`
+	case "childblock": // the fault sits in the child's override; execution runs in the base's context
+		if sn.atEOF {
+			cs.File = "/root.tpl"
+			files["/root.tpl"] = body
+			break
+		}
+		cs.File = "/root.tpl"
+		head := `{% extends "/sub/base.tpl" %}` + genC16Layout(t, "c0") + "{% block b %}"
+		files["/root.tpl"] = head + body + "{% endblock %}"
+		cs.Offset += len(head)
+		files["/sub/base.tpl"] = genC16Layout(t, "b0") + "<{% block b %}B{% endblock %}>\nend"
 	case "mac":
 		if sn.atEOF || sn.kind == "macro_too_many" {
 			cs.File = "/root.tpl"
